@@ -51,7 +51,10 @@ fn main() {
         "lsfd" => chan::lsfd_main(),
         "script" => script::run(),
         "router" => routerrole::run(),
-        "oneshot" => oneshot::run(args.get(2).map(|s| s.as_str()).unwrap_or("thread")),
+        "oneshot" => match args.get(2).map(|s| s.as_str()).unwrap_or("thread") {
+            "forked" => oneshot::run_forked(),
+            mode => oneshot::run(mode),
+        },
         "oneshot-client" => oneshot::client_main(),
         "nrecv" => nrecv::run(),
         "fifo" => fifo::run(),
